@@ -50,4 +50,58 @@ DefaultConfig == [inr |-> [i \in 0..3 |-> 0], di1 |-> 0, temp |-> 0, j1 |-> FALS
                   ai1 |-> 0, ai2 |-> 0, uio1 |-> FALSE, uio2 |-> FALSE, uio3 |-> FALSE]
 NewF(c) == ApplyConfigF(MachineInit, c)
 NewWithProgramF(c, image, ss, ps) == ApplyConfigF(LoadF(MachineInit, image, ss, ps), c)
+
+\* ---- one public call as a function of an op record ---------------------------
+(* Op records are what the harness's scenario interpreter executes:
+   [op |-> "edge"], [op |-> "set_input", k |-> 0..3, v |-> byte],
+   [op |-> "set_temp", x |-> voltage code], [op |-> "bus_write", a |-> addr, v |-> byte], ...
+   Every op except "load" / "asm_step" / "init" is a single deterministic step.   *)
+ApplyOp(m, o) ==
+  CASE o.op = "edge" -> EdgeF(m)
+    [] o.op = "key_int" -> KeyIntF(m)
+    [] o.op = "continue" -> ContinueF(m)
+    [] o.op = "cpu_reset" -> CpuResetF(m)
+    [] o.op = "master_reset" -> MasterResetF(m)
+    [] o.op = "set_input" -> SetInput(m, o.k, o.v)
+    [] o.op = "set_di1" -> [m EXCEPT !.bd = SetDigitalInput1(@, o.v)]
+    [] o.op = "set_temp" -> [m EXCEPT !.bd = SetTemp(@, o.x)]
+    [] o.op = "set_ai1" -> [m EXCEPT !.bd = SetAnalogInput1(@, o.x)]
+    [] o.op = "set_ai2" -> [m EXCEPT !.bd = SetAnalogInput2(@, o.x)]
+    [] o.op = "set_j1" -> [m EXCEPT !.bd = SetJumper1(@, o.v)]
+    [] o.op = "set_j2" -> [m EXCEPT !.bd = SetJumper2(@, o.v)]
+    [] o.op = "set_uio" -> [m EXCEPT !.bd = SetUio(@, o.k, o.v)]
+    [] o.op = "bus_write" -> BusWrite(m, o.a, o.v)
+    [] o.op = "bus_read" -> m
+    [] o.op = "set_limits" -> [m EXCEPT !.ss = o.ss, !.ps = o.ps]
+    [] o.op = "mode" -> m
+    [] o.op = "checkpoint" -> m
+    [] o.op = "load" -> LoadF(m, o.image, o.ss, o.ps)
+
+SimpleOps == {"edge", "key_int", "continue", "cpu_reset", "master_reset", "set_input", "set_di1", "set_temp",
+              "set_ai1", "set_ai2", "set_j1", "set_j2", "set_uio", "bus_write", "bus_read", "set_limits",
+              "mode", "checkpoint"}
+
+RECURSIVE ApplyOps(_, _)
+ApplyOps(m, ops) == IF ops = <<>> THEN m ELSE ApplyOps(ApplyOp(m, Head(ops)), Tail(ops))
+
+\* ---- projections used when behaviours are handed to the harness ---------------
+SeqOf(f, n) == [i \in 1..n |-> f[i - 1]]
+\* checksum of the RAM: sum of (i+1) * ram[i] modulo 65521, as 16 chunks of 15 cells
+\* (shallow recursion: TLC's evaluator is stack hungry)
+RamSum(ram) ==
+  LET Term(i) == (i + 1) * ram[i]
+      Chunk(c) == LET b == 15 * c IN
+        Term(b) + Term(b+1) + Term(b+2) + Term(b+3) + Term(b+4) + Term(b+5) + Term(b+6) + Term(b+7)
+        + Term(b+8) + Term(b+9) + Term(b+10) + Term(b+11) + Term(b+12) + Term(b+13) + Term(b+14)
+  IN (Chunk(0) + Chunk(1) + Chunk(2) + Chunk(3) + Chunk(4) + Chunk(5) + Chunk(6) + Chunk(7)
+      + Chunk(8) + Chunk(9) + Chunk(10) + Chunk(11) + Chunk(12) + Chunk(13) + Chunk(14) + Chunk(15)) % 65521
+\* everything except the RAM contents (RAM as checksum); JSON friendly
+ProjNoRam(m) ==
+  [maddr |-> m.maddr, ir |-> m.ir, regs |-> SeqOf(m.regs, 8), prw |-> m.prw, pfw |-> m.pfw,
+   pei |-> m.pei, pli |-> m.pli, wait |-> m.wait, st |-> m.st,
+   aout |-> m.aout, ac |-> m.ac, az |-> m.az, an |-> m.an, lbr |-> m.lbr, ss |-> m.ss, ps |-> m.ps,
+   inr |-> SeqOf(m.inr, 4), outr |-> SeqOf(m.outr, 2),
+   micr |-> m.micr, misr |-> m.misr, ucr |-> m.ucr, usr |-> m.usr, usend |-> m.usend, urecv |-> m.urecv,
+   ten |-> m.ten, td1 |-> m.td1, td2 |-> m.td2, td3 |-> m.td3, bd |-> m.bd, ramsum |-> RamSum(m.ram)]
+ProjFull(m) == [s |-> ProjNoRam(m), ram |-> SeqOf(m.ram, 240)]
 =====================================================================
